@@ -76,6 +76,7 @@ def main(tier):
     ck.rule("R-C19-4", "selectTestCase: each option combination throws or selects matching classes with parameters in the same roles", floor=100)
     ck.rule("R-C19-5", "source term == -div(alpha grad u) + beta u under the mapping (50-digit evaluation, rel. 1e-7)", floor=60)
     prog = ir.load(include_inputs=True, witness=False)
+    cas.PROG[0] = prog
     ck.units += [u for u in prog.units if "InputFunctions" in u or "select_test_case" in u]
     S = cas.SymOps()
     M = cas.MpOps()
